@@ -106,9 +106,11 @@ class Rig:
         """one request through the real adapters; returns (remote_ip, protocol) seen by the app, or None
         when the connection closed before the request finished"""
         h = httputil.HTTPHeaders()
-        h.add("Host", "x")
+        h["Host"] = "x"
         for k, v in hdrs:
-            h.add(k, v)
+            # dict-style set: no field-value regex on the symbolic text (CrossHair's model of that regex
+            # produced non-replaying artefacts); the precondition keeps the text a valid field value
+            h[k] = v
         d = self.server.start_request(None, self.conn)
         d.headers_received(httputil.RequestStartLine("GET", "/", "HTTP/1.1"), h)
         mid = (self.ctx.remote_ip, self.ctx.protocol)
@@ -346,7 +348,7 @@ HSETS = [
     [("X-Forwarded-For", "%s, %s" % (V6, TRUSTED_POOL[0]))],
     [("X-Scheme", "https")],
     [("X-Forwarded-Proto", "http"), ("X-Real-Ip", "bogus")],
-    None,     # X-Real-Ip: free text g, X-Forwarded-Proto: free text g
+    None,     # X-Real-Ip: free text g
 ]
 # expected (remote_ip or None = socket, protocol or None = socket) for the concrete sets
 HEXP = [(None, None), (V4, None), (V6, None), (None, "https"), (None, "http")]
@@ -361,19 +363,21 @@ def pre_hist(n: int, r0: int, r1: int, r2: int, r3: int, g: str, https: bool, cl
     if not (0 <= r1 < (nh if n > 1 else 1) and 0 <= r2 < (nh if n > 2 else 1) and 0 <= r3 < (nh if n > 3 else 1)):
         return False
     uses_g = r0 == 5 or r1 == 5 or r2 == 5 or r3 == 5
+    if https and not P.HS:
+        return False
     return len(g) <= (P.G if uses_g else 0) and _ok_chars(g)
 
 
 @harness(
     pre=pre_hist,
-    quick=dict(N=3, G=2, timeout=100),
-    thorough=dict(N=4, G=3, timeout=900),
+    quick=dict(N=3, G=1, HS=0, timeout=150),
+    thorough=dict(N=4, G=3, HS=1, timeout=900),
     nshards=dict(quick=18, thorough=24),
     reach=["plain_after_rewrite", "rewrite_after_rewrite", "closed_then_next", "free_text_numeric"],
     units=["httpserver.HTTPServer.start_request", "httpserver._ProxyAdapter (all methods)", "httpserver._CallableAdapter",
            "httpserver._HTTPRequestContext._apply_xheaders/_unapply_xheaders"],
     stubs=["each request carries one of 6 pooled header sets (none / X-Real-Ip v4 / X-Forwarded-For 'v6, trusted' / X-Scheme / "
-           "X-Forwarded-Proto + bogus X-Real-Ip / X-Real-Ip and X-Forwarded-Proto = free text g <= G cp); trusted_downstream = [5.5.5.5]",
+           "X-Forwarded-Proto + bogus X-Real-Ip / X-Real-Ip = free text g <= G cp); trusted_downstream = [5.5.5.5]",
            "netutil.is_valid_ip stub, fake stream/connection as in h_ip"],
     outside=["histories longer than N requests", "pipelined (overlapping) requests: HTTP/1 serves one request at a time per connection"],
 )
@@ -385,9 +389,9 @@ def h_history(n: int, r0: int, r1: int, r2: int, r3: int, g: str, https: bool, c
     for i in range(n):
         r = IDX[reqs[i]]
         if r == 5:
-            hdrs = [("X-Real-Ip", g), ("X-Forwarded-Proto", g)]
+            hdrs = [("X-Real-Ip", g)]
             eip = g if ref_is_numeric_ip(g) else None
-            epr = g if g in ("http", "https") else None
+            epr = None
             if eip is not None:
                 reached("free_text_numeric")
         else:
